@@ -19,6 +19,24 @@ CHECKS = {
         "float64 / label-coded values only; bounds <= 4 dims, <= 4 items.",
         "DESIGN.md C01",
     ),
+    "C04": (
+        "exploration",
+        "metamorphic testing: Hypothesis-generated operations run in base and permuted storage orders + exhaustive permutation enumeration",
+        "Each generated operation of the public catalogue is executed twice on the same labelled data, once per storage order of "
+        "every participating array; results are compared by label and the result's dimension order against the documented rule. "
+        "All permutations of all participating arrays are enumerated for 16 operation templates over an equal-length universe.",
+        "No reference model: the oracle is agreement between the two runs plus the order rule; bounds <= 4 dims, <= 3 items.",
+        "DESIGN.md C04",
+    ),
+    "C05": (
+        "exploration",
+        "Hypothesis-generated assignment histories against a dict model of the target, symbolic values for the summation identity",
+        "Sequences of 1-6 assignments with every key form and source kind are applied to one target and to a dict model; dims, "
+        "shape and all entries are compared after each step, rejected steps must leave the target bit-identical, assigned "
+        "ndarrays are overwritten afterwards to expose aliasing.",
+        "Trusts vlib/model.py; list selectors only with number/ndarray sources; bounds <= 4 dims, <= 6 steps.",
+        "DESIGN.md C05",
+    ),
     "C06": (
         "exploration",
         "Hypothesis-generated keys + exhaustive selector-kind enumeration against a label-dict reference model",
